@@ -53,7 +53,7 @@ def run(ctx):
     ctx.log("driver built")
     summ = M.run_driver(ctx, binary, "real", {"VERIF_ENUM_K": 2, "VERIF_ENUM3_POOL": ctx.pick(0, 8),
                                               "VERIF_ENUM_RELATED": ctx.pick(1, 0),
-                                              "VERIF_N": ctx.pick(400, 15000), "VERIF_CHUNK": ctx.pick(1000, 4000)})
+                                              "VERIF_N": ctx.pick(400, 10000), "VERIF_CHUNK": ctx.pick(1000, 4000)})
     ctx.log("real histories: %s" % {k: v for k, v in summ.items() if k != "files"})
     # T->I: TLC's counterexample and simulated behaviours, replayed on the real code
     rp = os.path.join(ctx.subdir("replay_in"), "cases.json")
